@@ -13,6 +13,7 @@ from fractions import Fraction as F
 
 import core
 import fracexec
+import v4_util as V4
 from fracexec import frac_str, frac_list
 
 EPS = F(1, 10 ** 10)
@@ -513,9 +514,11 @@ def gen_vdm_object(rng, kind=None, nmax=9):
 
 
 TINY_DT = [F(1, 10 ** k) for k in (3, 6, 9, 12, 15, 20)]
+# every legal simulation time step (the 45 divisors of 3600 s), the shipped / common ones more often
+STEP_DTS = list(V4.DIVISORS) + [60, 300, 300, 300, 600, 3600]
 
 
-def gen_step(rng, ob, T, tiny_dt=False):
+def gen_step(rng, ob, T, tiny_dt=False, dt_fixed=None):
     """One vdm step. `tiny_dt` (or one step in six anyway): a step of 1e-3 .. 1e-20 s, so that the diffusion
     number Kt*dt/dz^2 handed to diffusion_equation is far below any absolute threshold (1e-10 and smaller)."""
     f = gen_forc(rng, T)
@@ -524,9 +527,11 @@ def gen_step(rng, ob, T, tiny_dt=False):
     sens = rng.choice([rq(rng, 1, 300, 10), -rq(rng, 0.1, 60, 10), rq(rng, 1, 300, 10)])
     if ob['kind'] == 'heat0':
         sens = F(0)
-    dt = F(rng.choice([60, 300, 300, 600, 3600]))
+    dt = F(rng.choice(STEP_DTS))
     if tiny_dt or rng.random() < 1.0 / 6:
         dt = rng.choice(TINY_DT)
+    if dt_fixed is not None:
+        dt = F(dt_fixed)
     return dict(forc=f, sens=sens, dt=dt)
 
 
@@ -602,7 +607,7 @@ def run_step(obj, ob, step, conv=lambda x: x, circ=''):
             r = guarded(call)
     finally:
         R.diffusion_equation = orig
-    return r, (spy.te[-1] if spy.te else None), (kts[-1] if kts else None)
+    return r, (spy.te[-1] if spy.te else None), ((kts[0] + (len(kts),)) if kts else None)
 
 
 def fmt_vdm(r):
@@ -657,7 +662,7 @@ def oracle_vdm(ob, pre, step, r, te, eqargs):
         return 'te below 0.01: %s' % float(min(te))
     if not vdm_hyps(ob, pre, step) or eqargs is None:
         return None
-    co, da, daz, cd = eqargs
+    co, da, daz, cd = eqargs[:4]
     if len(cd) != n + 1 or any(k < 0 for k in cd):
         return 'diffusion_equation receives a negative / mis-sized cd: min %s' % float(min(cd))
     if any(v <= 0 for v in da[:n]) or any(v <= 0 for v in daz[:n + 1]):
@@ -671,7 +676,11 @@ def oracle_vdm(ob, pre, step, r, te, eqargs):
         return 'top two levels differ'
     if not all(lo <= v <= hi for v in new):
         return 'new potential temperature leaves [%s, %s] of the old profile' % (float(lo), float(hi))
-    return None
+    # the step as a whole, from the pre-state and the step's own dt (however the code calls its kernel): the profile
+    # after vdm is the solution of the diffusion system for the WHOLE step; the interior heat content changes by
+    # dt x the flux through the lowest interface.  Densities: those the object holds after the step (vdm updates
+    # them before it solves); coefficients: those handed to the (first) call of diffusion_equation
+    return V4.whole_step_msg(n, step['dt'], old, new, st['dc'], st['ds'], cd, ob['dz'])
 
 
 # ----------------------------------------------------------------------------- constructor
@@ -897,12 +906,14 @@ def run_coef(chk):
     # ---- RSMDef.__init__ grid + whole vdm steps (histories on ONE object)
     pairs, vk, nviol, nor = [], {}, [0], [0]
     gpairs = []
+    dts_seen, swept = {}, []
 
-    def history(ob, obj, nsteps, tag, tiny_dt=False):
+    def history(ob, obj, nsteps, tag, tiny_dt=False, dts=None):
         T = ob['st']['temp'][0] if ob['st']['temp'] else F(300)
         for s in range(nsteps):
             pre = snapshot(obj)
-            step = gen_step(rng, ob, T, tiny_dt)
+            step = gen_step(rng, ob, T, tiny_dt, dt_fixed=dts[s] if dts else None)
+            dts_seen[float(step['dt'])] = dts_seen.get(float(step['dt']), 0) + 1
             if step['dt'] < 1:
                 tag = tag.split('/dt<1s')[0] + '/dt<1s'
             line = line_vdm(ob, pre, step)
@@ -923,8 +934,9 @@ def run_coef(chk):
                                            'cd >= 0, densities > 0, new tempProf within [min, max] of '
                                            'the old one, bottom = forc.temp, top two equal')
             if isinstance(r, str):
-                break
+                return False
             coarsen(obj)
+        return True
 
     for _ in range(36 if quick else 200):
         ob = gen_vdm_object(rng, nmax=9 if quick else 12)
@@ -935,6 +947,12 @@ def run_coef(chk):
     for _ in range(5 if quick else 40):
         ob = gen_vdm_object(rng, kind='valid', nmax=8)
         history(ob, make_object(ob), 2, 'valid', tiny_dt=True)
+    # every legal simulation time step: ONE object stepped once at each of the 45 divisors of 3600 s, in shuffled order
+    for _ in range(1 if quick else 4):
+        ob = gen_vdm_object(rng, kind='valid', nmax=5 if quick else 9)
+        order = list(V4.DIVISORS)
+        rng.shuffle(order)
+        swept.append(history(ob, make_object(ob), len(order), 'valid/all-45-time-steps', dts=order))
     # through the real constructor: shipped grid (several inversion heights) and generated grids
     P = real_param(refHeight=F(150))
     # sensor heights: h_temp at the centre of the first level (2 m, every shipped file), below it, between levels,
@@ -972,7 +990,8 @@ def run_coef(chk):
              'profile with its caught ValueError, average pressure): histories of up to 3 steps on '
              'ONE object (made with object.__new__ - sensor / wind level numbers nz0, nz10 anywhere in 1..nzref - or '
              'by the real constructor on z_meso.txt / on generated grids with the sensor height h_temp at, below '
-             'and above the centre of the first level: nz0 = 1, 2, 3, 5), new forcing each step (dt 60..3600 s, and one step in six - in some histories '
+             'and above the centre of the first level: nz0 = 1, 2, 3, 5), new forcing each step (dt = any of the 45 legal '
+             'simulation time steps 1..3600 s - one object is stepped once at EVERY one of them - and one step in six - in some histories '
              'every step - with dt = 1e-3 .. 1e-20 s, i.e. a diffusion number Kt*dt/dz^2 far below 1e-10), '
              'profiles rounded in place to 6 decimals '
              'between steps; three steps of five under a circumstance that is no input (the RSMDef object rendered '
@@ -985,7 +1004,15 @@ def run_coef(chk):
                'te >= 0.01 on every step; under the hypotheses of Uwg.C16.vdm_step_admissible: cd '
                '>= 0 and densities > 0 at the call of diffusion_equation (spied), new potential '
                'temperature within [min, max] of the old profile, bottom = forc.temp, top two '
-               'levels equal - on the exact results of the real vdm', mismatches=nviol[0])
+               'levels equal; and the step as a WHOLE, written from the pre-state and the step\'s own dt: for every '
+               'interior level da dz (new - old) = dt x (flux in - flux out) with the fluxes of the NEW profile (i.e. '
+               'the profile after vdm is the exact solution of the implicit system for the whole time step, however '
+               'often the kernel is called), hence interior heat gain = dt x flux through the lowest interface - on the '
+               'exact results of the real vdm; time steps met: every divisor of 3600 s', mismatches=nviol[0],
+               branches={'dt=%g' % k: v for k, v in sorted(dts_seen.items()) if k >= 1})
+    missing_dt = [d for d in V4.DIVISORS if float(d) not in dts_seen]
+    if missing_dt and all(swept) and not nviol[0]:
+        raise core.Infra('vdm tie: legal time steps never stepped: %s' % missing_dt)
     chk.assumptions.append(
         'the symbols sqrt / log / rpow are total functions in the model; CPython returns a complex '
         'number for a negative base under `**` with a non-integral exponent (then max() raises '
@@ -995,6 +1022,197 @@ def run_coef(chk):
                      'test: rural.sens == 0.0 exactly raises ZeroDivisionError (modelled, tie class '
                      'heat0); uref == 0 in the unstable branch raises ZeroDivisionError in phi_m '
                      '(uwg.py clamps forc.wind to windMin before vdm is called)')
+
+
+# ----------------------------------------------------------------------------- every legal time step, in doubles
+def _sens_of_hour(h):
+    """rural sensible heat flux of a synthetic day: stable nights (negative), unstable days; never exactly 0"""
+    import math
+    return -27.5 + 260.0 * max(0.0, math.sin(math.pi * (h - 6) / 12.0))
+
+
+def float_step_msg(obj, forc, dt, pre, cd):
+    """C16 on one real (double precision) vdm step of length dt, from the pre-state alone"""
+    n = obj.nzref
+    x = list(obj.tempProf)
+    start = [forc.temp] + list(pre[1:])
+    scale = max(abs(v) for v in start + x)
+    tol = 1e-9 * scale
+    lo, hi = min(start[:n - 1]), max(start[:n - 1])
+    if len(x) != n or not all(v == v and abs(v) != float('inf') for v in x):
+        return 'non-finite or mis-sized temperature profile'
+    if x[0] != forc.temp:
+        return 'lowest level %r is not the measured rural air temperature %r' % (x[0], forc.temp)
+    if abs(x[n - 1] - x[n - 2]) > tol:
+        return 'top two levels differ: %r vs %r' % (x[n - 1], x[n - 2])
+    if cd is not None and min(cd) >= 0 and not all(lo - tol <= v <= hi + tol for v in x):
+        i = [not (lo - tol <= v <= hi + tol) for v in x].index(True)
+        return 'level %d = %r outside [%r, %r] of the profile the step started from' % (i, x[i], lo, hi)
+    if cd is None:
+        return 'vdm returned without computing diffusion coefficients'
+    return V4.whole_step_msg(n, dt, start, x, obj.densityProfC, obj.densityProfS, cd, obj.dz, rel=1e-9)
+
+
+def run_all_timesteps(chk):
+    """Float level, plain package: the RSMDef objects of really generated models (and objects built by the real
+    constructor with fewer / more levels) stepped by the real vdm at EVERY legal simulation time step, forcing taken
+    from the rows of the rural file; the C16 statement for the whole step after every call.  Also: one object through
+    all 45 time steps in a row (both directions), and objects of different sizes stepped alternately in both orders
+    against twins stepped alone (bit for bit)."""
+    import copy
+    import uwgutil as U
+    quick = chk.tier == 'quick'
+    rng = chk.rng
+    core.repo_python_path()
+    from uwg.RSMDef import RSMDef
+    o_coef = RSMDef.__dict__['diffusion_coefficient']
+    o_eq = RSMDef.__dict__['diffusion_equation']
+    got = {}
+
+    def spy_coef(self, *a, **k):
+        if got.get('interrupt') == 'diffusion_coefficient':
+            raise got['with']('interrupted by the harness')
+        r = o_coef(self, *a, **k)
+        got['cd'] = list(r[0])
+        return r
+
+    def spy_eq(*a, **k):
+        got['calls'] = got.get('calls', 0) + 1
+        if got.get('interrupt') == 'diffusion_equation':
+            raise got['with']('interrupted by the harness')
+        return o_eq.__func__(*a, **k)
+    models = [dict(month=1, day=1), dict(month=7, day=14, h_temp=10.0, h_obs=5.0, h_wind=30.0)]
+    if not quick:
+        models += [dict(month=4, day=30, h_temp=3.5, h_obs=1.0), dict(month=10, day=1, h_temp=30.0, h_obs=0.01)]
+    objs = []
+    for kw in models:
+        m = U.new_model(nday=2, dtsim=300, **kw)
+        with core.quiet():
+            m.generate()
+        rows = [NS(temp=m.forcIP.temp[i], pres=m.forcIP.pres[i], wind=max(m.forcIP.wind[i], m.geoParam.windMin))
+                for i in range(len(m.forcIP.temp))]
+        tag = 'h_temp %s, h_obs %s' % (m.h_temp, m.h_obs)
+        objs.append(('RSM of a generated model (%s, %d levels)' % (tag, m.RSM.nzref), m.RSM, m.geoParam, rows))
+        objs.append(('USM of a generated model (%s, %d levels)' % (tag, m.USM.nzref), m.USM, m.geoParam, rows))
+        for href in ((90.0, 600.0) if kw is models[0] else (250.0,)):
+            gp = copy.copy(m.geoParam)
+            gp.refHeight = href
+            o = RSMDef(m.lat, m.lon, m.gmt, m.h_obs, m.weather.staTemp[0], m.weather.staPres[0], gp, m.Z_MESO_PATH)
+            objs.append(('RSMDef(refHeight %g m: %d levels)' % (href, o.nzref), o, gp, rows))
+    bad, br, nsteps = [], {}, [0]
+
+    def step(o, gp, rows, dt, s, what, case):
+        forc = rows[(7 * s + 3) % len(rows)]
+        sens = _sens_of_hour((5 * s + 1) % 24) * (1.0 if s % 3 else 0.37)
+        pre = list(o.tempProf)
+        got.clear()
+        o.vdm(forc, NS(sens=sens), gp, NS(dt=dt))
+        nsteps[0] += 1
+        msg = float_step_msg(o, forc, dt, pre, got.get('cd'))
+        if msg and len(bad) < 3:
+            bad.append((dict(case, **{'time step dt (s)': dt, 'step of this object': s, 'object': what,
+                                      'forcing': {'temp': forc.temp, 'pres': forc.pres, 'wind': forc.wind},
+                                      'rural sensible heat flux': sens,
+                                      'profile before (lowest 6 levels)': pre[:6],
+                                      'profile after (lowest 6 levels)': list(o.tempProf[:6]),
+                                      'calls of diffusion_equation in this step': got.get('calls')}), msg))
+        return msg
+    RSMDef.diffusion_coefficient = spy_coef
+    RSMDef.diffusion_equation = staticmethod(spy_eq)
+    try:
+        # (a) every object x every legal time step, a fresh copy each
+        per = 3 if quick else 12
+        for what, o0, gp, rows in objs:
+            for dt in V4.DIVISORS:
+                o = copy.deepcopy(o0)
+                for s in range(per):
+                    step(o, gp, rows, float(dt) if s % 2 == 0 else dt, s, what, {'family': 'fresh object per time step'})
+                br['dt=%d' % dt] = br.get('dt=%d' % dt, 0) + per
+        # (b) ONE object through all 45 time steps, ascending, descending, shuffled
+        for what, o0, gp, rows in objs[:2 if quick else len(objs)]:
+            o = copy.deepcopy(o0)
+            order = list(V4.DIVISORS) + list(reversed(V4.DIVISORS)) + rng.sample(V4.DIVISORS, 45)
+            for s, dt in enumerate(order):
+                step(o, gp, rows, float(dt), s, what, {'family': 'one object through all 45 time steps (up, down, shuffled)'})
+            br['history:135 steps on one object'] = br.get('history:135 steps on one object', 0) + 1
+        # (c) objects with fewer / more levels stepped alternately, both orders, vs twins stepped alone
+        sized = sorted(objs, key=lambda t: t[1].nzref)
+        pairs_ = [(sized[0], sized[-1]), (sized[-1], sized[0])]
+        if not quick:
+            pairs_ += [(sized[1], sized[-2]), (sized[-2], sized[1]), (sized[0], sized[len(sized) // 2])]
+        for (wa, a0, gpa, ra), (wb, b0, gpb, rb) in pairs_:
+            a, b, a1, b1 = (copy.deepcopy(x) for x in (a0, b0, a0, b0))
+            dts = [rng.choice(V4.DIVISORS) for _ in range(8)]
+            for s, dt in enumerate(dts):
+                step(a, gpa, ra, float(dt), s, wa, {'family': 'two objects of different size stepped alternately', 'other': wb})
+                step(b, gpb, rb, float(dt), s, wb, {'family': 'two objects of different size stepped alternately', 'other': wa})
+            for s, dt in enumerate(dts):
+                step(b1, gpb, rb, float(dt), s, wb, {'family': 'twin stepped alone'})
+            for s, dt in enumerate(dts):
+                step(a1, gpa, ra, float(dt), s, wa, {'family': 'twin stepped alone'})
+            key = 'alternating:%d+%d levels' % (a0.nzref, b0.nzref)
+            br[key] = br.get(key, 0) + 1
+            for o, o1, w in ((a, a1, wa), (b, b1, wb)):
+                if (list(o.tempProf), list(o.windProf), list(o.presProf)) != (list(o1.tempProf), list(o1.windProf), list(o1.presProf)) \
+                        and len(bad) < 3:
+                    lv = [p != q for p, q in zip(o.tempProf, o1.tempProf)]
+                    bad.append(({'family': 'two objects of different size stepped alternately vs alone', 'objects': [wa, wb],
+                                 'time steps': dts}, '%s: after 8 steps its profiles differ from those of an identical '
+                                 'object stepped alone with the same inputs (first differing level of tempProf: %s)' % (
+                                     w, lv.index(True) if True in lv else 'none - windProf / presProf differ')))
+        # (d) an interrupted step: KeyboardInterrupt / SystemExit / GeneratorExit (BaseException, not Exception) raised
+        # inside vdm - before the coefficients are computed, or right before the solve -, caught by the caller, then the
+        # normal sequence: must equal a twin that was never interrupted (bit for bit) and satisfy the statement
+        for n_int, (what, o0, gp, rows) in enumerate(objs[:3 if quick else len(objs)]):
+            for exc, where in ((KeyboardInterrupt, 'diffusion_equation'), (SystemExit, 'diffusion_coefficient'),
+                               (GeneratorExit, 'diffusion_equation')):
+                o, twin = copy.deepcopy(o0), copy.deepcopy(o0)
+                dts = [rng.choice(V4.DIVISORS) for _ in range(4)]
+                for s, dt in enumerate(dts):
+                    if s == 1 + n_int % 2:
+                        forc = rows[(7 * s + 3) % len(rows)]
+                        got.clear()
+                        got.update(interrupt=where)
+                        got['with'] = exc
+                        try:
+                            o.vdm(forc, NS(sens=41.5), gp, NS(dt=float(dt)))
+                        except BaseException as e:  # noqa: BLE001
+                            if not isinstance(e, exc):
+                                raise
+                    case = {'family': 'step interrupted by %s inside %s, caught, then the normal sequence' % (exc.__name__, where)}
+                    step(o, gp, rows, float(dt), s, what, case)
+                    step(twin, gp, rows, float(dt), s, what, {'family': 'twin never interrupted'})
+                key = 'interrupted:%s in %s' % (exc.__name__, where)
+                br[key] = br.get(key, 0) + 1
+                if (list(o.tempProf), list(o.windProf), list(o.presProf), list(o.densityProfC)) != \
+                        (list(twin.tempProf), list(twin.windProf), list(twin.presProf), list(twin.densityProfC)) and len(bad) < 3:
+                    bad.append((dict(case, object=what, **{'time steps': dts}),
+                                'after the interrupted call was caught and the steps repeated normally, the profiles differ '
+                                'from those of an identical object that was never interrupted'))
+    finally:
+        RSMDef.diffusion_coefficient = o_coef
+        RSMDef.diffusion_equation = o_eq
+    for case, msg in bad:
+        chk.violation('impl-violation', 'C16 through whole vdm steps at every legal time step (doubles)', case=case,
+                      observed=msg,
+                      expected='lowest level = measured temperature; top two levels equal; no new extreme; for every '
+                               'interior level da dz (new - old) = dt (flux in - flux out) with the fluxes of the new '
+                               'profile, dt = the time step of the simulation (1e-9 relative): the profile is the '
+                               'solution of the diffusion system for the WHOLE step and the interior heat content changes '
+                               'by dt x the flux through the lowest interface')
+    chk.direct('vdm-whole-step-oracle(doubles, all 45 legal time steps)', nsteps[0], nsteps[0],
+               'plain float RSMDef.vdm on the RSM / USM objects of really generated models (shipped heights; sensor at 10 m '
+               'above obstacles of 5 m; thorough: two more) and on objects built by the real constructor with fewer / more '
+               'levels (refHeight 90 / 250 / 600 m: %s), forcing = rows of the rural file, rural heat flux of a synthetic day '
+               '(stable and unstable): (a) a fresh copy of every object stepped %d times at EACH of the 45 divisors of '
+               '3600 s (dt handed over as float and as int), (b) one object through all 45 time steps ascending, '
+               'descending and shuffled, (c) objects of different size stepped alternately in both orders, bit-identical '
+               'to twins stepped alone, (d) a step interrupted by KeyboardInterrupt / SystemExit / GeneratorExit raised inside '
+               'vdm (before the coefficients / right before the solve), caught, then the normal sequence: bit-identical to a '
+               'twin never interrupted. After every call, from the pre-state and the step\'s own dt only: bottom, top, '
+               'bounds, and level by level da dz (new - old) = dt x (flux in - flux out) of the new profile (1e-9), i.e. '
+               'exact solution for the whole step and conservation with respect to the time step'
+               % (sorted(set(o.nzref for _, o, _, _ in objs)), per), mismatches=len(bad), branches=br)
 
 
 def case_json(cs):
